@@ -399,6 +399,37 @@ def set_item(ex, target: ast.Subscript, v, p, node):
             else:
                 raise Unsupported(f"{ex.module.name}:{node.lineno}: item assignment on {type(cur).__name__}")
         return out
+    if isinstance(target.value, ast.Attribute):
+        # obj.attr[key] = v on a heap object: the dictionary held in the attribute is replaced by its update
+        out = []
+        for p0, base in ex.ev(target.value.value, p):
+            if not isinstance(base, Ref):
+                raise Unsupported(f"{ex.module.name}:{node.lineno}: item assignment on an attribute of {type(base).__name__}")
+            cur = (p0.heap or {}).get(base.ident, {}).get(target.value.attr)
+            for p1, idx in ex.ev(target.slice, p0):
+                if isinstance(cur, DctL):
+                    # lookups on a symbolic dict take the LAST matching entry, so an update is an appended entry
+                    new = DctL(ex.concat(cur.keys, Lst(items=[idx])), ex.concat(cur.vals, Lst(items=[v])))
+                elif isinstance(cur, Dct):
+                    pairs, decided = list(cur.pairs), True
+                    for j_, (k, _) in enumerate(pairs):
+                        c = z3.simplify(eq(idx, k))
+                        if z3.is_true(c):
+                            pairs[j_] = (k, v)
+                            break
+                        if not z3.is_false(c):
+                            decided = False
+                            break
+                    else:
+                        pairs.append((idx, v))
+                    if decided:
+                        new = Dct(pairs)
+                    else:   # undecided key equality: continue with the symbolic (last-match) representation
+                        new = DctL(Lst(items=[k for k, _ in cur.pairs] + [idx]), Lst(items=[x for _, x in cur.pairs] + [v]))
+                else:
+                    raise Unsupported(f"{ex.module.name}:{node.lineno}: item assignment on attribute holding {type(cur).__name__}")
+                out.append(p1.heap_set(base.ident, target.value.attr, new))
+        return out
     raise Unsupported(f"{ex.module.name}:{node.lineno}: item assignment")
 
 
